@@ -331,7 +331,7 @@ CLOSE_CODES = [0, 999, 1000, 1001, 1002, 1003, 1004, 1005, 1006, 1007, 1008, 100
 SIZES = [0, 0, 1, 2, 3, 7, 20, 60, 124, 125, 126, 127, 128, 300, 1000]
 MUTATIONS = ["none", "rsv", "rsv1-misuse", "reserved-opcode", "fragmented-control", "control-too-long", "cont-outside",
              "data-inside", "non-minimal", "length-msb", "wrong-mask", "close-1", "close-code", "close-reason", "utf8",
-             "utf8-trunc", "utf8", "none", "utf8-asciirun"]
+             "utf8-trunc", "utf8", "none", "utf8-asciirun", "ctl-inside-open-seq"]
 
 
 def gen_text(rng, n):
@@ -372,7 +372,7 @@ def gen_stream(rng, ctx, big=False):
             text_msgs.append(spec)
         frames.append(spec)
     # payload-level mutations are applied before compression / fragmentation
-    if mut in ("utf8", "utf8-trunc", "utf8-asciirun"):
+    if mut in ("utf8", "utf8-trunc", "utf8-asciirun", "ctl-inside-open-seq"):
         if not text_msgs:
             spec = {"text": True, "payload": gen_text(rng, rng.choice(SIZES)), "compressed": bool(ctx.pmce and rng.random() < 0.5),
                     "nfrag": rng.choice([1, 2, 3])}
@@ -386,6 +386,23 @@ def gen_stream(rng, ctx, big=False):
             while 0 < pos < len(p) and (p[pos] & 0xC0) == 0x80:
                 pos += 1
             spec["payload"] = p[:pos] + rng.choice(ILL) + p[pos:]
+        elif mut == "ctl-inside-open-seq":
+            # a VALID text message cut inside a multi-octet sequence, a control frame (judged on its own) in the gap
+            pos = rng.randint(0, len(p))
+            while 0 < pos < len(p) and (p[pos] & 0xC0) == 0x80:
+                pos += 1
+            seq = rng.choice(ASCII_RUN_SEQS)
+            k = rng.randint(1, len(seq) - 1)
+            spec["payload"] = p[:pos] + seq + p[pos:]
+            spec["forced_cuts"] = [pos + k]
+            what = rng.choice(["close-valid", "close-valid", "close-bad", "ping", "pong"])
+            if what == "close-valid":
+                cpl = struct.pack("!H", rng.choice([1000, 1001, 3000, 4999])) + gen_text(rng, rng.choice([1, 3, 40, 123]))
+                spec["ctl_after_first"] = {"op": 8, "payload": cpl}
+            elif what == "close-bad":
+                spec["ctl_after_first"] = {"op": 8, "payload": struct.pack("!H", 1000) + seq[k:] + rng.choice([b"", b"bye"])}
+            else:
+                spec["ctl_after_first"] = {"op": 9 if what == "ping" else 10, "payload": seq[k:] + bytes(rng.getrandbits(8) for _ in range(rng.choice([0, 2, 30])))}
         elif mut == "utf8-asciirun":
             # lead octets of a sequence | ASCII run | (mostly) the continuation octets - pieces cut exactly there
             pos = rng.randint(0, len(p))
@@ -420,7 +437,10 @@ def gen_stream(rng, ctx, big=False):
         for j, piece in enumerate(pieces):
             wire.append({"op": (1 if spec["text"] else 2) if j == 0 else 0, "fin": j == len(pieces) - 1,
                          "rsv": 4 if (comp and j == 0) else 0, "payload": piece, "inmsg": j > 0})
-            if rng.random() < 0.3:
+            if j == 0 and "ctl_after_first" in spec and len(pieces) > 1:
+                c = spec["ctl_after_first"]
+                wire.append({"op": c["op"], "fin": True, "rsv": 0, "payload": c["payload"], "inmsg": True, "ctl": True})
+            elif rng.random() < 0.3:
                 wire.append({"op": rng.choice([9, 9, 10]), "fin": True, "rsv": 0,
                              "payload": bytes(rng.getrandbits(8) for _ in range(rng.choice([0, 1, 5, 125]))),
                              "inmsg": j < len(pieces) - 1, "ctl": True})
